@@ -747,7 +747,7 @@ def gen_twin_drought(rng, cfg, nsteps, late_every=5):
     return g, h.rec
 
 
-def emit_twin(sc, ops, mode, tag, save_every=1, check_every=5, corr_every=0):
+def emit_twin(sc, ops, mode, tag, save_every=1, check_every=5, corr_every=0, sp_corr=False):
     """F = finalizing instance, N = never finalizing (cfg of N: see C09.py, N is created by `instn`).
     mode: 'finx'   F is a plain instance: public finalizeBlocks() after EVERY step, saveTrees only every
                    `save_every` steps: unsaved blocks on the active chain lower the actually finalized block
@@ -769,9 +769,12 @@ def emit_twin(sc, ops, mode, tag, save_every=1, check_every=5, corr_every=0):
             continue
         if w[0] == "finnow":
             if mode == "finy":
+                sa = sc.add("on F sdump", (tag, "spre", i)) if sp_corr else None   # C09 cascade correspondence (VBK+BTC)
                 a = sc.add("on F adump", (tag, "pre", i))
                 sc.add("on F fin")
                 sc.add("on F adump", (tag, "post", i, a))
+                if sp_corr:
+                    sc.add("on F sdump", (tag, "spost", i, sa))
                 sc.add("on F paircheck N", (tag, "check", i))
                 saving = True
             continue
@@ -787,18 +790,24 @@ def emit_twin(sc, ops, mode, tag, save_every=1, check_every=5, corr_every=0):
             if i % save_every == 0:
                 sc.add("on F save")
             if corr_every and i % corr_every == 0:
+                sa = sc.add("on F sdump", (tag, "spre", i)) if sp_corr else None   # C09 cascade correspondence (VBK+BTC)
                 a = sc.add("on F adump", (tag, "pre", i))
                 sc.add("on F fin")
                 sc.add("on F adump", (tag, "post", i, a))
+                if sp_corr:
+                    sc.add("on F sdump", (tag, "spost", i, sa))
             else:
                 sc.add("on F fin")
         elif i % save_every == 0:
             sc.add("on F save")
             if mode == "fin":
                 if corr_every and (i // save_every) % corr_every == 0:
+                    sa = sc.add("on F sdump", (tag, "spre", i)) if sp_corr else None   # C09 cascade correspondence (VBK+BTC)
                     a = sc.add("on F adump", (tag, "pre", i))
                     sc.add("on F fin")
                     sc.add("on F adump", (tag, "post", i, a))
+                    if sp_corr:
+                        sc.add("on F sdump", (tag, "spost", i, sa))
                 else:
                     sc.add("on F fin")
         if i % check_every == 0:
